@@ -278,6 +278,55 @@ def run(tier):
                 parse_reqs.append({"op": "header", "hex": bytes(hh).hex(), "id": len(parse_reqs)})
                 v.nontrivial((ps, off, val if off in KEY_OFFSETS else -1, mode))
                 nexp += 1
+    # a long-lived handle whose file is rebuilt with ANOTHER legal page size by a real SQLite connection (VACUUM): every
+    # re-read of the header must take the new page size along; the rows stay the same
+    vpath = os.path.join(d, "vacuum.db")
+    base_db(vpath, 4096)
+    vops, vmarks = [], []
+    vid = 0
+
+    def vadd(op):
+        nonlocal vid
+        o_ = dict(op, id=vid)
+        vid += 1
+        vops.append(o_)
+        return o_["id"]
+    vfirst = [vadd(o_) for o_ in READ_OPS]
+    vcode = ("import sqlite3, sys\np, ps = sys.argv[1], sys.argv[2]\nc = sqlite3.connect(p, isolation_level=None)\n"
+             "c.execute('PRAGMA page_size=' + ps)\nc.execute('VACUUM')\nc.close()\nopen(p + '.hdr' + ps, 'wb').write(open(p, 'rb').read(100))\n")
+    for j, ps2 in enumerate((1024, 8192, 512, 65536, 2048) if tier == "quick" else (1024, 8192, 512, 65536, 2048, 32768, 4096, 16384, 512, 65536, 1024)):
+        vadd({"op": "exec", "args": [common.PYTHON, "-c", vcode, vpath, str(ps2)]})
+        if j % 2 == 0:
+            ids = [vadd(o_) for o_ in READ_OPS]
+            kind = "ops"
+        else:
+            vadd({"op": "rlock"})
+            ids = [vadd(dict(o_, no_lock=True)) for o_ in LOW_OPS]
+            vadd({"op": "runlock"})
+            kind = "txn"
+        vmarks.append((ps2, ids, kind, j))
+    vreq, vout = os.path.join(d, "vreq.ndjson"), os.path.join(d, "vres.ndjson")
+    common.write_ndjson(vreq, [{"db": vpath, "mode": "keep", "ops": vops}])
+    rc, txt, _ = common.run([h, "ops", vreq, vout], timeout=600)
+    if rc != 0:
+        raise common.harness_failure(txt)
+    vres = {x["id"]: x for x in common.read_ndjson(vout)}
+    for o_ in vops:
+        if o_["op"] == "exec" and vres[o_["id"]].get("err"):
+            raise Infra("VACUUM step failed: %r" % vres[o_["id"]].get("err"))
+    vbase = summarize([vres[i] for i in vfirst])
+    if any(e for e, _, _, _ in vbase):
+        raise Infra("baseline read of the vacuum file failed")
+    low_idx = [i for i, o_ in enumerate(READ_OPS) if o_ in LOW_OPS]
+    for ps2, ids, kind, j in vmarks:
+        rs = summarize([vres[i] for i in ids])
+        base_ = vbase if kind == "ops" else [vbase[i] for i in low_idx]
+        hh = open(vpath + ".hdr%d" % ps2, "rb").read(100)
+        events.append({"h": list(hh), "basePageSize": ps2, "outcome": outcome(rs, base_), "mode": "reread"})
+        info.append({"page_size": ps2, "off": 16, "val": hh[16], "mode": "vacuum-to-%d-%s" % (ps2, kind), "outcome": events[-1]["outcome"]})
+        parse_reqs.append({"op": "header", "hex": bytes(hh).hex(), "id": len(parse_reqs)})
+        v.nontrivial(("vacuum", ps2, kind))
+        nexp += 1
     # files written by SQLite itself
     for tag, path in special_files(d):
         req, out = os.path.join(d, "sreq.ndjson"), os.path.join(d, "sres.ndjson")
